@@ -179,7 +179,7 @@ func (tr *Transaction) Write(b *Batch, wo *opt.WriteOptions) error {
 }
 
 func (tr *Transaction) setDone() {
-	verifAt("t.done")
+	verifAt("t.done", tr.seq)
 	tr.closed = true
 	tr.db.tr = nil
 	tr.mem.decref()
